@@ -487,9 +487,16 @@ func c41JudgeBytes(c *ev.Collector, b []byte, origin, f6label string) (class str
 	// disagreement: is it exactly the F6 class (the parsed form re-marshals
 	// to other bytes than those received, and the package verifies the
 	// signature over the re-marshaled form)?
-	if !remarshalSame {
+	// F6 is exactly: the received bytes use one of the two tolerated encoding
+	// liberties (empty option value as an embedded empty string, non-minimal
+	// mpint in the subject or CA key), the package's re-marshaled form is the
+	// canonical encoding of the same certificate, and the verdict follows the
+	// re-marshaled bytes instead of the received ones.
+	canon, kinds, cerr := rk.CanonCert(b)
+	if !remarshalSame && cerr == nil && len(kinds) > 0 && bytes.Equal(canon, pc.Marshal()) {
 		reSigOK, _ := rk.CASignatureOK(pc.Marshal())
 		if (got && !sigOK && reSigOK) || (!got && sigOK && !reSigOK && reason == "ok") {
+			f6label = strings.Join(kinds, "+")
 			dir := "accepts bytes the CA never signed"
 			if !got {
 				dir = "rejects a correctly signed certificate"
@@ -837,7 +844,8 @@ func c41Tool(t *testing.T, c *ev.Collector, env *c41Env) {
 			cls := "roundtrip+accepted"
 			if !roundTrip || !got {
 				what := fmt.Sprintf("certificate issued by ssh-keygen -s (%s, %s subject, %s CA): byte-for-byte round trip=%v, %s accepted=%v (%v)", sp.descr, subj.typ, ca.typ, roundTrip, cc.method, got, rerr)
-				if _, listed := ev.IsKnownFinding("F6"); listed && sp.f6 {
+				_, kinds, _ := rk.CanonCert(b)
+			if _, listed := ev.IsKnownFinding("F6"); listed && sp.f6 && len(kinds) > 0 {
 					c.Excluded()
 					c.Known("F6 (second face) ssh-keygen encodes an option given as 'name=' with an embedded empty string; ParsePublicKey/Marshal does not reproduce those bytes and CheckCert, verifying over the re-marshaled form, rejects the correctly signed certificate")
 					cls = "known-F6"
